@@ -34,27 +34,110 @@ fn subst_values(thorough: bool, orig: u8) -> Vec<u8> {
     v
 }
 
-/// Variant `i` of `base`: truncations first, then substitutions.
-fn variant(base: &[u8], i: usize, thorough: bool) -> Option<(Vec<u8>, String)> {
-    let n = base.len();
-    if i < n { return Some((base[..i].to_vec(), format!("truncate to {i} of {n} bytes"))) }
-    let mut k = i - n;
-    for pos in 0..n {
-        let vals = subst_values(thorough, base[pos]);
-        if k < vals.len() {
-            let mut b = base.to_vec();
-            b[pos] = vals[k];
-            return Some((b, format!("byte {pos} of {n}: {:#04x} -> {:#04x}", base[pos], vals[k])))
-        }
-        k -= vals.len();
-    }
-    // a few whole-file variants
-    let extra: Vec<Vec<u8>> = vec![vec![], vec![0], vec![0xff], vec![0, 0], vec![0xff, 0xff], vec![0xff; 64], vec![0; 4096]];
-    extra.get(k).map(|b| (b.clone(), format!("whole file replaced by {} bytes of {:#04x}", b.len(), b.first().copied().unwrap_or(0))))
+const INDEX_START: usize = 6 + 16 + 8;
+const INDEX_ENTRIES: usize = 1024 + 1;
+const BODY_START: usize = INDEX_START + INDEX_ENTRIES * 8;
+
+/// One deviation from the pristine artefact.
+#[derive(Clone, Debug)]
+pub enum Kind {
+    Truncate(usize),
+    Byte(usize, u8),
+    Whole(Vec<u8>),
+    /// `width` bytes at `pos` all set to `fill` (whole length and pointer
+    /// fields at once, whatever their byte order)
+    Window(usize, usize, u8),
+    /// the 8-byte native-endian pointer field at `pos` set to `value`
+    /// (another object's start, its own, the end of the file)
+    Pointer(usize, u64),
 }
 
-fn variant_count(base: &[u8], thorough: bool) -> usize {
-    base.len() + base.iter().map(|b| subst_values(thorough, *b).len()).sum::<usize>() + 7
+fn u64_at(b: &[u8], p: usize) -> u64 { b.get(p..p + 8).map(|x| u64::from_ne_bytes(x.try_into().unwrap())).unwrap_or(0) }
+
+/// Pointer fields of an archive (offset of the field, start of the tile it
+/// lives in or 0 for an index entry) and the starts of all tiles reachable
+/// through the index.
+fn archive_pointers(b: &[u8]) -> (Vec<(usize, u64)>, Vec<u64>) {
+    let mut fields = Vec::new();
+    let mut tiles = Vec::new();
+    if b.len() < BODY_START { return (fields, tiles) }
+    for i in 0..INDEX_ENTRIES {
+        let entry = INDEX_START + i * 8;
+        let mut pos = u64_at(b, entry);
+        if pos == 0 { continue }
+        fields.push((entry, 0));
+        let mut steps = 0;
+        while pos != 0 && (pos as usize) + 16 <= b.len() && steps < 1000 {
+            steps += 1;
+            if !tiles.contains(&pos) { tiles.push(pos); }
+            fields.push((pos as usize + 8, pos));
+            pos = u64_at(b, pos as usize + 8);
+        }
+    }
+    tiles.sort();
+    (fields, tiles)
+}
+
+/// All variants of `base`, in a fixed order (the index is the identity of
+/// a variant in replay files): truncations, single-byte substitutions, a
+/// few whole-file replacements, field-wide windows, archive pointers.
+pub fn variants(name: &str, base: &[u8], thorough: bool) -> Vec<Kind> {
+    let n = base.len();
+    let mut res: Vec<Kind> = (0..n).map(Kind::Truncate).collect();
+    for pos in 0..n { for v in subst_values(thorough, base[pos]) { res.push(Kind::Byte(pos, v)); } }
+    for w in [vec![], vec![0], vec![0xff], vec![0, 0], vec![0xff, 0xff], vec![0xff; 64], vec![0; 4096]] { res.push(Kind::Whole(w)); }
+    let archive = name == "archive";
+    for pos in 0..n {
+        // the archive's bucket index is 1025 aligned pointers, mostly
+        // zero: whole entries only
+        let in_index = archive && (INDEX_START..BODY_START).contains(&pos);
+        if in_index && (pos - INDEX_START) % 8 != 0 { continue }
+        for (width, fill) in [(8usize, 0xffu8), (8, 0x00), (4, 0xff)] {
+            if in_index && width != 8 { continue }
+            if pos + width > n { continue }
+            if base[pos..pos + width].iter().all(|b| *b == fill) { continue }
+            res.push(Kind::Window(pos, width, fill));
+        }
+    }
+    if archive {
+        let (fields, tiles) = archive_pointers(base);
+        for (field, own) in fields {
+            let cur = u64_at(base, field);
+            let mut targets: Vec<u64> = tiles.clone();
+            targets.extend([0, n as u64, own]);
+            targets.sort(); targets.dedup();
+            for t in targets { if t != cur && !(t == 0 && own == 0 && cur == 0) { res.push(Kind::Pointer(field, t)); } }
+        }
+    }
+    res
+}
+
+/// Applies a variant: bytes, description, first position touched.
+pub fn apply(base: &[u8], k: &Kind) -> (Vec<u8>, String, Option<usize>) {
+    let n = base.len();
+    match k {
+        Kind::Truncate(i) => (base[..*i].to_vec(), format!("truncate to {i} of {n} bytes"), None),
+        Kind::Byte(pos, v) => {
+            let mut b = base.to_vec();
+            b[*pos] = *v;
+            (b, format!("byte {pos} of {n}: {:#04x} -> {:#04x}", base[*pos], v), Some(*pos))
+        }
+        Kind::Whole(w) => (w.clone(), format!("whole file replaced by {} bytes of {:#04x}", w.len(), w.first().copied().unwrap_or(0)), None),
+        Kind::Window(pos, width, fill) => {
+            let mut b = base.to_vec();
+            for x in &mut b[*pos..*pos + *width] { *x = *fill; }
+            (b, format!("bytes {pos}..{} of {n} all set to {fill:#04x}", pos + width), Some(*pos))
+        }
+        Kind::Pointer(pos, v) => {
+            let mut b = base.to_vec();
+            b[*pos..*pos + 8].copy_from_slice(&v.to_ne_bytes());
+            (b, format!("pointer at {pos} of {n}: {} -> {v}", u64_at(base, *pos)), Some(*pos))
+        }
+    }
+}
+
+fn variant(name: &str, base: &[u8], i: usize, thorough: bool) -> Option<(Vec<u8>, String, Option<usize>)> {
+    variants(name, base, thorough).get(i).map(|k| apply(base, k))
 }
 
 //------------ Fixture -------------------------------------------------------
@@ -69,6 +152,51 @@ fn tree() -> TreeSpec {
     ta.asns = vec![(64496, 64511)];
     ta.objs = vec![ObjSpec::roa("r0", 64496, "10.0.0.0", 16, 16), ObjSpec::roa("r1", 64497, "10.1.0.0", 16, 24)];
     TreeSpec { tals: vec![TalSpec { name: "alpha".into(), ta_uri: format!("rsync://{FIX_HOST}/repo/ta0.cer"), ca: ta, wrong_key: false, https_uri: None }] }
+}
+
+/// The server steps behind the fixture archive; one client update after
+/// each phase.
+fn fixture_history() -> Vec<Vec<c25::SrvOp>> {
+    use c25::SrvOp::Set;
+    vec![
+        vec![Set(0, Some(0))],
+        vec![Set(1, Some(2))],
+        vec![Set(2, Some(0))],
+        vec![Set(1, None), Set(0, Some(1))],
+    ]
+}
+
+/// What the server does before the update that runs over a damaged copy:
+/// a publish that fits the hole exactly, a publish into a shared bucket
+/// and a withdrawal from a shared chain.
+fn continuation() -> Vec<c25::SrvOp> {
+    use c25::SrvOp::Set;
+    vec![Set(1, Some(2)), Set(3, Some(0)), Set(0, None)]
+}
+
+thread_local! {
+    /// names absent from the pristine archive, one per non-empty bucket
+    static PROBES: std::cell::RefCell<Vec<String>> = const { std::cell::RefCell::new(Vec::new()) };
+}
+
+/// Prepares a process for archive variants: the colliding names of the
+/// fixture and one absent name per non-empty bucket.
+fn init_archive(pristine: &Path) {
+    use std::hash::Hasher;
+    c25::resolve_colliders(pristine).expect("colliding names");
+    let b = fs::read(pristine).expect("pristine archive");
+    let key: [u8; 16] = b[6..22].try_into().unwrap();
+    let mut probes = Vec::new();
+    for i in 0..INDEX_ENTRIES - 1 {
+        if u64_at(&b, INDEX_START + i * 8) == 0 { continue }
+        for k in 0..200_000usize {
+            let cand = format!("rsync://{}/m/absent{k}.bin", c25::HOST);
+            let mut h = siphasher::sip::SipHasher24::new_with_key(&key);
+            h.write(cand.as_bytes());
+            if h.finish() % 1024 == i as u64 { probes.push(cand); break }
+        }
+    }
+    PROBES.with(|p| *p.borrow_mut() = probes);
 }
 
 /// Builds the pristine artefacts under `dir` (cache with a stored point and
@@ -87,19 +215,31 @@ fn build_fixture(dir: &Path) -> Fixture {
     let status_path = config.cache_dir.join("stored").join("status.bin");
     assert!(point_path.exists(), "stored point file");
     assert!(status_path.exists(), "status file");
-    // RRDP archive through the real collector
+    // RRDP archive through the real collector: a big object withdrawn
+    // again (a hole inside the file), an object replaced in place, and an
+    // object whose name shares the hash bucket of another one published
+    // into part of the hole.
     let w = c25::Worker::new(&dir.join("fixture-rrdp"), None);
+    c25::NAME_OVERRIDE.with(|n| n.borrow_mut().clear());
     let (mut server, mut truth) = c25::new_server();
-    c25::apply_srv(&mut server, &mut truth, c25::SrvOp::Set(0, Some(0)));
-    c25::apply_srv(&mut server, &mut truth, c25::SrvOp::Set(1, Some(1)));
     w.install(&None);
-    let o = c25::client_update(&w, &server, &truth, c25::Mode::Faithful).expect("fixture rrdp update");
-    assert_eq!(o.result, "updated");
-    c25::apply_srv(&mut server, &mut truth, c25::SrvOp::Set(0, Some(1)));
-    c25::apply_srv(&mut server, &mut truth, c25::SrvOp::Set(1, None));
-    c25::apply_srv(&mut server, &mut truth, c25::SrvOp::Set(1, Some(0)));
-    let o = c25::client_update(&w, &server, &truth, c25::Mode::Faithful).expect("fixture rrdp update 2");
-    assert_eq!(o.result, "updated");
+    for (i, phase) in fixture_history().iter().enumerate() {
+        for op in phase { c25::apply_srv(&mut server, &mut truth, *op); }
+        let o = c25::client_update(&w, &server, &truth, c25::Mode::Faithful).expect("fixture rrdp update");
+        assert_eq!(o.result, "updated");
+        if i == 0 { c25::resolve_colliders(&w.path).expect("colliding names"); }
+    }
+    {
+        let bytes = fs::read(&w.path).expect("fixture archive");
+        let (fields, tiles) = archive_pointers(&bytes);
+        let empty_head = u64_at(&bytes, INDEX_START + (INDEX_ENTRIES - 1) * 8);
+        let chained = fields.iter().filter(|(_, own)| *own != 0 && u64_at(&bytes, *own as usize + 8) != 0).count();
+        if empty_head == 0 || chained == 0 || tiles.len() < 4 {
+            for t in &tiles { eprintln!("  tile at {t}: size {} next {} empty {}", u64_at(&bytes, *t as usize), u64_at(&bytes, *t as usize + 8), bytes[*t as usize + 16]); }
+            eprintln!("machinery error: C27 fixture archive lacks a hole or a shared chain (empty head {empty_head}, chained {chained}, tiles {})", tiles.len());
+            std::process::exit(2)
+        }
+    }
     let archive_path = dir.join("fixture").join("archive.bin");
     fs::copy(&w.path, &archive_path).expect("copy archive");
     Fixture { dir: dir.join("fixture"), point_path, status_path, archive_path }
@@ -176,6 +316,7 @@ fn exercise(
             rrdp.install(&Some(bytes.to_vec()));
             alloc::reset();
             let path = rrdp.path.clone();
+            let mut endless = false;
             let r = util::catch(|| {
                 let v = RrdpArchive::verify(&path).is_ok();
                 let mut s = format!("verify={v}");
@@ -185,10 +326,23 @@ fn exercise(
                         s.push_str(&format!(":state={}", a.load_state().is_ok()));
                         match a.objects() {
                             Err(_) => s.push_str(":objects-error"),
-                            Ok(it) => { let mut n = 0; let mut bad = 0; for o in it { if n + bad > 10_000 { break } match o { Ok(_) => n += 1, Err(_) => { bad += 1; break } } } s.push_str(&format!(":objects={n}:errors={bad}")) }
+                            Ok(it) => {
+                                let mut n = 0; let mut bad = 0;
+                                for o in it {
+                                    if n > 10_000 { endless = true; break }
+                                    match o { Ok(_) => n += 1, Err(_) => { bad += 1; break } }
+                                }
+                                s.push_str(&format!(":objects={n}:errors={bad}"))
+                            }
                         }
-                        for i in 0..3 {
+                        for i in 0..4 {
                             let u = uri::Rsync::from_str(&c25::obj_uri(i)).unwrap();
+                            let _ = a.load_object(&u);
+                        }
+                        // names that are not there, one per occupied bucket:
+                        // the whole chain is walked
+                        for p in PROBES.with(|p| p.borrow().clone()) {
+                            let u = uri::Rsync::from_str(&p).unwrap();
                             let _ = a.load_object(&u);
                         }
                     }
@@ -196,6 +350,9 @@ fn exercise(
                 s
             }).map_err(|p| ("panic".to_string(), format!("reading the RRDP archive panicked: {p}")))?;
             check_alloc("reading the RRDP archive")?;
+            if endless {
+                return Err(("endless-listing".into(), "the archive's object listing never ends (more than 10000 items from a file that held 4)".into()))
+            }
             outcome.push_str(&r);
             if full_run {
                 // An update over the damaged copy: must end in a correct
@@ -204,12 +361,8 @@ fn exercise(
                 alloc::reset();
                 c25::FATAL_IS_OUTCOME.with(|x| x.set(true));
                 let (mut server, mut truth) = c25::new_server();
-                c25::apply_srv(&mut server, &mut truth, c25::SrvOp::Set(0, Some(0)));
-                c25::apply_srv(&mut server, &mut truth, c25::SrvOp::Set(1, Some(1)));
-                c25::apply_srv(&mut server, &mut truth, c25::SrvOp::Set(0, Some(1)));
-                c25::apply_srv(&mut server, &mut truth, c25::SrvOp::Set(1, None));
-                c25::apply_srv(&mut server, &mut truth, c25::SrvOp::Set(1, Some(0)));
-                c25::apply_srv(&mut server, &mut truth, c25::SrvOp::Set(0, None));
+                for phase in fixture_history() { for op in phase { c25::apply_srv(&mut server, &mut truth, op); } }
+                for op in continuation() { c25::apply_srv(&mut server, &mut truth, op); }
                 let r = util::catch(|| c25::client_update(rrdp, &server, &truth, c25::Mode::Faithful))
                     .map_err(|p| ("panic".to_string(), format!("RRDP update over the damaged archive panicked: {p}")))?;
                 check_alloc("the RRDP update")?;
@@ -251,18 +404,28 @@ pub fn aux_worker(args: &[String]) -> i32 {
     let f = Fixture { dir: mine.join("fixture"), point_path: rel(&fx.point_path), status_path: rel(&fx.status_path), archive_path: rel(&fx.archive_path) };
     let base = fs::read(artefact_path(&fx, name)).expect("artefact");
     let rrdp = c25::Worker::new(&mine.join("rrdp"), None);
+    init_archive(&fx.archive_path);
+    let all = variants(name, &base, thorough);
     let mut outcomes: std::collections::BTreeMap<String, u64> = Default::default();
     let mut violations: Vec<Value> = Vec::new();
+    let mut per_class: std::collections::BTreeMap<String, usize> = Default::default();
     for i in from..to {
-        let Some((bytes, desc)) = variant(&base, i, thorough) else { break };
+        let Some(kind) = all.get(i) else { break };
+        let (bytes, desc, pos) = apply(&base, kind);
         let _ = fs::write(&crumb, format!("{i}"));
-        let full = full_every <= 1 || i % full_every == 0;
+        // the update over the damaged copy: always where the damage sits in
+        // the objects or in an occupied index entry, else every n-th
+        let structural = name == "archive" && pos.map(|p| p >= BODY_START || (p >= INDEX_START && u64_at(&base, p - (p - INDEX_START) % 8) != 0)).unwrap_or(false);
+        let full = full_every <= 1 || i % full_every == 0 || structural;
         match exercise(&f, name, &bytes, &rrdp, full) {
             Ok(o) => { *outcomes.entry(o).or_insert(0) += 1; }
             Err((class, msg)) if class == "harness" => { eprintln!("machinery error: {msg}"); return 2 }
             Err((class, msg)) => {
                 *outcomes.entry(format!("VIOLATION:{class}")).or_insert(0) += 1;
-                if violations.len() < 50 { violations.push(json!({"index": i, "class": class, "what": format!("{name}, {desc}: {msg}")})); }
+                // a few of every class (a flood of one class must not hide another)
+                let seen = per_class.entry(format!("{class}{}", region_of(name, pos))).or_insert(0usize);
+                *seen += 1;
+                if *seen <= 4 { violations.push(json!({"index": i, "class": class, "what": format!("{name}, {desc}: {msg}")})); }
             }
         }
     }
@@ -306,11 +469,23 @@ pub fn run(ctx: &Ctx) -> Report {
         run, and an RRDP archive (state record, objects published, replaced \
         and withdrawn over two real updates); variants: every truncation \
         length, every single-byte substitution with 4 values (thorough 11) \
-        per position, and a few whole-file replacements; each variant is \
+        per position, a few whole-file replacements, every 8-byte window \
+        set to all-ones / all-zeros and every 4-byte window set to \
+        all-ones (whole length and pointer fields at once; in the \
+        archive's bucket index whole entries only), and in the archive \
+        every pointer field (occupied index entries, every chain link) \
+        set to every other object's start, its own object, 0 and the end \
+        of the file (cycles, cross-links, self-links); the archive fixture \
+        holds a hole left by a withdrawn three-page object, an object \
+        replaced in place and two objects sharing a hash bucket; each variant is \
         read through StoredPoint::load_quietly + iteration, Store::status, \
-        RrdpArchive::verify / open / load_state / objects / load_object, \
-        and (every variant in thorough, every 4th in quick) a full offline \
-        validation run resp. a real RRDP update over it; worker processes \
+        RrdpArchive::verify / open / load_state / objects / load_object \
+        (present names and one absent name per occupied bucket), \
+        and (every variant in thorough; in quick every 4th, and every \
+        variant that touches the archive's objects or an occupied index \
+        entry) a full offline validation run resp. a real RRDP update over \
+        it (three deltas: a publish fitting the hole exactly, a publish \
+        into a shared bucket, a withdrawal from a shared chain); worker processes \
         with an 8 GiB address-space cap, per-thread largest-allocation \
         tracking and a hang horizon; oracle: no panic, no abort, no hang, \
         no single allocation above 64 MiB + 16 x file size, an update \
@@ -323,7 +498,7 @@ pub fn run(ctx: &Ctx) -> Report {
     let mut total = 0usize;
     for name in ARTEFACTS {
         let base = fs::read(artefact_path(&f, name)).expect("artefact");
-        let n = variant_count(&base, thorough);
+        let n = variants(name, &base, thorough).len();
         total += n;
         rep.extra.insert(format!("{name}_bytes"), json!(base.len()));
         rep.extra.insert(format!("{name}_variants"), json!(n));
@@ -377,7 +552,7 @@ pub fn run(ctx: &Ctx) -> Report {
                             if st.code() == Some(2) { eprintln!("machinery error: C27 worker reported a harness failure"); std::process::exit(2) }
                             // died: the variant in the breadcrumb killed it
                             let Some(c) = crumb else { eprintln!("machinery error: C27 worker died without breadcrumb: {st}"); std::process::exit(2) };
-                            let desc = variant(&base, c, thorough).map(|x| x.1).unwrap_or_default();
+                            let desc = variant(name, &base, c, thorough).map(|x| x.1).unwrap_or_default();
                             rep.evaluations += 1;
                             *rep.outcomes.entry(format!("{name}:VIOLATION:crash")).or_insert(0) += 1;
                             rep.violation(format!("corrupt:{name}:crash"), format!("{name}, {desc}: the process died ({st}) reading this variant (abort, e.g. on an allocation beyond the 8 GiB address-space cap, or a crash)"),
@@ -390,7 +565,7 @@ pub fn run(ctx: &Ctx) -> Report {
                             if last_change.elapsed() > Duration::from_secs(20) {
                                 let _ = child.kill(); let _ = child.wait();
                                 let c = last_crumb;
-                                let desc = variant(&base, c, thorough).map(|x| x.1).unwrap_or_default();
+                                let desc = variant(name, &base, c, thorough).map(|x| x.1).unwrap_or_default();
                                 rep.evaluations += 1;
                                 *rep.outcomes.entry(format!("{name}:VIOLATION:hang")).or_insert(0) += 1;
                                 rep.violation(format!("corrupt:{name}:hang"), format!("{name}, {desc}: no progress for 20 s reading this variant"),
@@ -409,7 +584,7 @@ pub fn run(ctx: &Ctx) -> Report {
             if rep.violations.len() >= 150 { rep.capped = Some("more than 150 violations, remaining ranges skipped".into()); break }
         }
     }
-    rep.bound = format!("{total} variants over {} artefacts (complete single-byte and truncation enumeration)", ARTEFACTS.len());
+    rep.bound = format!("{total} variants over {} artefacts (complete truncation, single-byte, field-window and archive-pointer enumeration)", ARTEFACTS.len());
     rep.sample(json!({"artefact": "point", "index": 7, "meaning": "stored point truncated to 7 bytes"}));
     rep.assumptions.push("single-deviation corruption (one truncation or one substituted byte) plus a few whole-file replacements; allocation tracking is per thread of the harness (worker threads of the validation run included via their own high-water marks only when they run on the calling thread)".into());
     rep
@@ -418,16 +593,17 @@ pub fn run(ctx: &Ctx) -> Report {
 /// The part of the file a substitution variant touches (archives only):
 /// part of the finding's identity.
 fn region(name: &str, base: &[u8], idx: usize, thorough: bool) -> String {
-    if name != "archive" || idx < base.len() { return String::new() }
-    let mut k = idx - base.len();
-    for pos in 0..base.len() {
-        let n = subst_values(thorough, base[pos]).len();
-        if k < n {
-            return if pos < 30 { ":header".into() } else if pos < 30 + 1025 * 8 { ":bucket-index".into() } else { ":objects".into() }
-        }
-        k -= n;
+    region_of(name, variant(name, base, idx, thorough).and_then(|x| x.2))
+}
+
+fn region_of(name: &str, pos: Option<usize>) -> String {
+    if name != "archive" { return String::new() }
+    match pos {
+        None => String::new(),
+        Some(pos) if pos < INDEX_START => ":header".into(),
+        Some(pos) if pos < BODY_START => ":bucket-index".into(),
+        Some(_) => ":objects".into(),
     }
-    String::new()
 }
 
 fn shorten(k: &str) -> String {
@@ -454,7 +630,14 @@ pub fn replay(ctx: &Ctx, v: &Value) -> Report {
     let idx = v["index"].as_u64().unwrap_or(0) as usize;
     let base = fs::read(artefact_path(&f, &name)).expect("artefact");
     let rrdp = c25::Worker::new(&dir.join("rrdp"), None);
-    if let Some((bytes, desc)) = variant(&base, idx, thorough) {
+    init_archive(&f.archive_path);
+    // {"window": [pos, width, fill]} / {"pointer": [pos, value]} name a variant directly
+    let direct = if let Some(w) = v["window"].as_array() {
+        Some(apply(&base, &Kind::Window(w[0].as_u64().unwrap() as usize, w[1].as_u64().unwrap() as usize, w[2].as_u64().unwrap() as u8)))
+    } else if let Some(w) = v["pointer"].as_array() {
+        Some(apply(&base, &Kind::Pointer(w[0].as_u64().unwrap() as usize, w[1].as_u64().unwrap())))
+    } else { None };
+    if let Some((bytes, desc, _)) = direct.or_else(|| variant(&name, &base, idx, thorough)) {
         println!("{name}: {desc}");
         match exercise(&f, &name, &bytes, &rrdp, true) {
             Ok(o) => println!("outcome {o}"),
